@@ -83,14 +83,22 @@ func init() {
 		if len(p) == 0 {
 			return tuple{int(0), iface{}}
 		}
-		if m.wclosed {
-			if e, ok := m.werr.(iface); ok && e.t != nil {
-				return tuple{int(0), m.werr}
+		for !m.wclosed && len(m.buf) == 0 {
+			// the reader is ahead of the writer: let a pending goroutine (the
+			// writer's) run to completion first
+			if !fr.i.runLateGo() {
+				unsupported("io.Pipe read would have to wait for a writer that is still open")
 			}
-			return tuple{int(0), fr.i.ioErr("EOF")}
 		}
-		unsupported("io.Pipe read would have to wait for a writer that is still open")
-		return nil
+		if len(m.buf) > 0 {
+			n := copy(p, m.buf)
+			m.buf = m.buf[n:]
+			return tuple{n, iface{}}
+		}
+		if e, ok := m.werr.(iface); ok && e.t != nil {
+			return tuple{int(0), m.werr}
+		}
+		return tuple{int(0), fr.i.ioErr("EOF")}
 	}
 	closeR := func(fr *frame, args []value, err value) value {
 		m := pipeOf(fr, args[0])
